@@ -27,6 +27,39 @@ claim("C10", "model_checking",
       "DESIGN.md §4 C10, §5 F1",
       "Trusted: revm_database::State through its Database (&mut) interface as the reference (its &self storage_ref falls through to the database for destroyed accounts and is not used); shuttle-engine runtime for the race part; bounds = history depth and alphabet as reported.")
 
+claim("C07", "exploration",
+      "bounded exhaustive enumeration of beneficiary roles x fee settings x blocks x deviation-bounded schedule DFS, oracle = in-order stock revm (+ commit-event oracle on reader drivers)",
+      "The fee recipient is made absent, a plain account, a sender, a recipient, a contract with storage that is called, created in the block, self-destructing and near-overflow, under legacy/zero/EIP-1559 fees on pre- and post-London rule sets; every block of length 2-3 over payers, role actions and coinbase readers (BALANCE, EXTCODESIZE, SLOAD via call) is run under all schedules within the bound and compared with in-order revm, including the beneficiary's bundle entry; reader drivers additionally check the beneficiary delta of every commit event.",
+      "DESIGN.md §4 C07", SCHED_NOTE)
+claim("C08", "exploration",
+      "bounded exhaustive enumeration of destroy/create/write/read sequences x fork rule sets x deviation-bounded schedule DFS, oracle = in-order stock revm",
+      "All sequences of length 2-3 over 14 lifecycle templates (destroy, recreate, create+destroy in one tx, write, balance/code/slot probes, EIP-161 touch, inner-frame revert around a destroy, CREATE deployment) on an address with pre-existing storage and fresh addresses, on Homestead..Osaka rule sets; the probes store what they observed so the observations are part of the compared bundle. The sharpest reader-races-destroyer blocks get coarse bound 2-3 and fine bound 1-2.",
+      "DESIGN.md §4 C08", SCHED_NOTE)
+claim("C09", "exploration",
+      "bounded exhaustive enumeration of deployment / EIP-7702 authorisation sequences x deviation-bounded schedule DFS, oracle = in-order stock revm",
+      "All sequences of length 2-3 over 16 templates (7702 set, re-point, clear, wrong nonce, two authorities, repeated authority, self-authorisation, calls into and probes of the delegated account, transactions sent from it, CREATE2 deployment plus calls/probes of the created contract) with authorisation nonces tracked per block; Code and Basic are versioned separately in grevm, so re-point/clear-then-call drivers are also explored at fine granularity.",
+      "DESIGN.md §4 C09", SCHED_NOTE)
+claim("C11", "exploration",
+      "bounded exhaustive enumeration of blocks mixing custom-precompile calls with ordinary transactions x deviation-bounded schedule DFS, oracle = in-order stock revm with the same adapters installed",
+      "Eight capability-restricted test precompiles (read twice, write, read-write-read, set balance, mutate-in-static-and-ignore, ignore-a-fault, fatal-if-zero, panic) are called directly, through CALL/STATICCALL/CALL-then-REVERT relays and interleaved with ordinary writes to the same slots, balances and the beneficiary; outcomes (which carry the precompiles' own read observations and gas) and bundles must equal the in-order reference on both the parallel and the sequential path.",
+      "DESIGN.md §4 C11", SCHED_NOTE)
+claim("C14", "exploration",
+      "stateless model checking: deviation-bounded DFS over 2-3 concurrent entry-point callers of one Scheduler",
+      "Two or three tasks call execute / parallel_execute / fallback_sequential on one shared scheduler (empty and state-changing blocks, parallel and forced-sequential configuration) under every schedule within fine bound 2-3 / coarse bound 3-4, which includes all successive orders: exactly one call wins, all others get the once-only error, and outcomes/bundle equal one in-order application. take_result_and_state before any execution is checked to be empty and untouched.",
+      "DESIGN.md §4 C14", SCHED_NOTE)
+claim("C15", "exploration",
+      "loom: exhaustive interleavings x C11-permitted stale reads of the source-included production cursor/frontier/timestamp code",
+      "RewindableCursor (1-2 claimers + 1-2 rewinders, every start/target), the first-unexecuted frontier through SchedulerContext (every split/order of 3 completions over 2-3 publishers plus a sampling reader; visibility probed with Relaxed flags) and the validation/rewind/finality timestamp protocol are explored by loom on the production functions (no re-implementation): no claim at or beyond the limit, every rewound index offered again, the frontier never passes an invisible execution and always catches up, a validation predating a covering rewind never yields finality.",
+      "DESIGN.md §4 C15", LOOM_NOTE)
+claim("C16", "exploration",
+      "loom: exhaustive interleavings of the source-included TxDependency under scripted execution outcomes, then a sequential drain that detects orphans",
+      "2-3 claimers run bounded iterations of the worker loop (next / duplicate-claim handling / remove / add / key_tx with scripted per-attempt outcomes) against one committer publishing the committed cursor, for every outcome script over 2-4 transactions; afterwards the loop is drained sequentially: any transaction that is neither executed nor on offer is an orphan. A release of a blocked transaction by the graph requires its current blocker to be resolved (stale reverse edges), ownership is exclusive under the transaction lock.",
+      "DESIGN.md §4 C16", LOOM_NOTE)
+claim("C17", "exploration",
+      "loom: complete (unbounded) exploration of the source-included WaitSlot with park without timeout",
+      "One waiter (register; loop wait_while) against one or two notifiers (publish condition, notify), one or two conditions, two rounds, condition under a mutex; park has no timeout so a lost wake-up is a loom deadlock. The models found a store-buffering lost wake-up on the unchanged tree (finding F3, fixed). The three production notifiers are covered under SC by C05.",
+      "DESIGN.md §4 C17, §5 F3", LOOM_NOTE)
+
 _pending = "check not built yet in this round; tracked in DESIGN.md §10 (build order)"
-for pid in ["C06","C07","C08","C09","C11","C12","C13","C14","C15","C16","C17"]:
+for pid in ["C06","C12","C13"]:
     NOT_APPLICABLE[pid] = _pending
